@@ -45,3 +45,24 @@ PROPS["C20"] = dict(
         dict(name="fuzzformat", fuzz="FuzzFormat", fuzztime=60),
     ],
 )
+
+PROPS["C01"] = dict(
+    pkg="c01", level="exploration",
+    technique="property-based testing (rapid) of every public entry point against a reference admission predicate; full enumeration of the built-in level matrix",
+    claim=("Every generated (level registry, debug-mode history, logger kind, logger level, severity, entry point) scenario is executed on "
+           "recording writers and compared with the admission rule written from the statement; Enabled/EnabledContext are compared too. "
+           "The built-in sub-space (12x12 levels x all ~60 entry points x debug off/explicit/side-effect x root/child) is enumerated "
+           "completely on every run; custom registries and numeric levels are sampled."),
+    note="Termination is disabled with LnoInterrupt (C12 owns it). Treated-as targets are restricted to Panic..Trace because the statement does not say how a level treated as Off/Always/OK/Success/Fail chains. Registry isolation relies on the verif hook.",
+    rule=("rapid draws 0-4 RegisterLevel calls (values negative/12..40/huge/colliding, optional treated-as in Panic..Trace, optional error device), "
+          "a debug history (off / SetDebugMode / side effect of SetLevel(Debug) on another logger), a logger kind (root via interface, root *Entry, "
+          "child, grandchild), L and r from built-ins, registered and unregistered numeric levels, and an entry point able to carry r. "
+          "Non-trivial: the pair is decided by a clause other than plain built-in ordering, or the entry point is not a plain verb method; "
+          "distinct = (clause, entry point, kind of L, kind of r, decision)."),
+    assumptions=["recording writers installed with SetWriter/SetErrorWriter/AddLevelWriter see everything the logger emits",
+                 "is.DebugMode() reflects the process-wide debug mode the gate consults"],
+    stages=[
+        dict(name="matrix", run="^TestAdmissionMatrix$", quick=1, thorough=1),
+        dict(name="generated", run="^TestAdmissionGenerated$", quick=40000, thorough=1600000, shards=16, timeout_thorough=3000),
+    ],
+)
